@@ -6,7 +6,7 @@ from sim.runner import RunResult
 from worlds import common
 
 PID = 'C16'
-SCHEDULE_DEPENDENT = False
+SCHEDULE_DEPENDENT = True
 RULE = ('seeded operation histories (append/appendleft/pop/popleft/clear/len and the consumer protocol wait(block=False)+'
         'popleft+task_done) on queues of capacity 2-6, biased to run into the full queue (the overflow fault), executed by '
         'one simulated thread on (a) a LockingDeque directly, (b) a not-yet-started ActiveObject through post_fifo/post_lifo, '
@@ -14,20 +14,31 @@ RULE = ('seeded operation histories (append/appendleft/pop/popleft/clear/len and
         'than capacity; a post returns (a poster parked for ever is "blocked"); after a fifo post the new event is last, after '
         'a lifo post it is first; on overflow exactly one older element is gone and the others keep their order (which one is '
         'not constrained); pop/popleft return the ends; clear() returns normally and leaves 0 events and 0 tokens; tokens >= '
-        'events at every operation boundary and tokens == events in histories that only take through the consumer protocol. '
+        'events at every operation boundary and tokens == events in histories that only take through the consumer protocol; a '
+        'concurrent stratum lets 2-3 threads post and clear() at the same time (optionally with a consuming thread) under the '
+        'seeded scheduler and demands, once everything is idle again, a token for every pending event and no thread blocked. '
         'Non-trivial = a history that posts to a full queue or clears; distinct = distinct (target, capacity, op kinds at '
         'full-queue/empty-queue boundaries) tuples.')
 ASSUMPTIONS = ['sequential histories: under concurrency tokens < events is legitimately transient and the obligation is C04\'s']
-PROBES = ['post_on_full', 'lifo_on_full', 'clear_on_empty']
+PROBES = ['post_on_full', 'lifo_on_full', 'clear_on_empty', 'clear_racing_posts']
 PLAN = {
-  'quick': {'strata': {'locking-deque': 6000, 'active-object': 2500, 'queued-chart': 2500}, 'wall_s': 90, 'chunk': 200, 'min_conclusive': 1000},
-  'thorough': {'strata': {'locking-deque': 200000, 'active-object': 60000, 'queued-chart': 60000}, 'wall_s': 900, 'chunk': 500, 'min_conclusive': 10000},
+  'quick': {'strata': {'locking-deque': 6000, 'active-object': 2500, 'queued-chart': 2500, 'concurrent': 3000}, 'wall_s': 90, 'chunk': 200, 'min_conclusive': 1000},
+  'thorough': {'strata': {'locking-deque': 200000, 'active-object': 60000, 'queued-chart': 60000, 'concurrent': 80000}, 'wall_s': 900, 'chunk': 500, 'min_conclusive': 10000},
 }
 OPS = ['append', 'appendleft', 'pop', 'popleft', 'clear', 'len', 'consume']
 
 
 def generate(seed, stratum, tier):
   rng = random.Random(seed)
+  if stratum == 'concurrent':
+    cap = rng.choice([3, 4, 6, 500])
+    threads = []
+    for t in range(rng.randrange(2, 4)):
+      threads.append([rng.choices(['append', 'appendleft', 'clear'], weights=[4, 3, 2])[0] for _ in range(rng.randrange(1, 5))])
+    if not any('clear' in t for t in threads):
+      threads[0].append('clear')
+    return {'target': 'concurrent', 'cap': cap, 'threads': threads, 'consumer': rng.random() < 0.5, 'ops': [],
+            'sched': common.draw_sched(rng, grans=('line', 'opcode'), weights=(1, 2), expected_steps=300, policies=('sticky', 'pct'))}
   cap = rng.randrange(2, 7)
   n = rng.randrange(3, 30)
   consumer_only = stratum == 'locking-deque' and rng.random() < 0.4
@@ -44,6 +55,18 @@ def generate(seed, stratum, tier):
 
 
 def shrink_candidates(sc):
+  if sc.get('target') == 'concurrent':
+    th = sc['threads']
+    for i, t in enumerate(th):
+      for j in range(len(t) - 1, -1, -1):
+        if len(t) > 1:
+          yield dict(sc, threads=th[:i] + [t[:j] + t[j + 1:]] + th[i + 1:])
+    if len(th) > 2:
+      for i in range(len(th)):
+        yield dict(sc, threads=th[:i] + th[i + 1:])
+    if sc.get('consumer'):
+      yield dict(sc, consumer=False)
+    return
   ops = sc['ops']
   n = len(ops)
   if n > 1:
@@ -75,7 +98,84 @@ def relaxed_post_ok(before, after, item, end, cap):
   return False
 
 
+def execute_concurrent(sc, sched):
+  """posting threads race clear() (and optionally a consumer); when everything is idle again
+  there must be a wake-up token for every pending event and never more events than capacity"""
+  res = RunResult()
+  sim = common.new_sim(sc, sched, max_steps=100000)
+  seams.set_queue_size(sc['cap'])
+  ao = seams.mods['activeobject']
+  box = {}
+  errors = []
+  over = []
+  taken = []
+
+  def client(k, ops):
+    q = box['q']
+    n = 0
+    for op in ops:
+      try:
+        if op == 'clear':
+          q.clear()
+        else:
+          n += 1
+          (q.append if op == 'append' else q.appendleft)('t%d.%d' % (k, n))
+      except kernel.SimAbort:
+        raise
+      except BaseException as e:  # noqa
+        import traceback
+        errors.append((k, op, type(e).__name__, traceback.format_exc()[-500:]))
+      if q.deque.real_len() > sc['cap']:
+        over.append((k, op, q.deque.real_len()))
+
+  def consumer():
+    q = box['q']
+    while True:
+      q.wait()
+      if len(q):
+        try:
+          taken.append(q.popleft())
+        except IndexError:
+          pass
+      q.task_done()
+
+  def main():
+    box['q'] = ao.LockingDeque()
+    if sc.get('consumer'):
+      sim.spawn(consumer, role='consumer')
+    for k, ops in enumerate(sc['threads']):
+      sim.spawn(client, (k, ops), role='client')
+
+  sim.spawn(main, role='main')
+  reason = sim.run()
+  q = box.get('q')
+  if reason == 'budget':
+    res.outcome, res.reason = 'inconclusive', 'step budget'
+  elif errors:
+    k, op, typ, tb = errors[0]
+    res.violate('op-raised-under-concurrency', {'op': op, 'exc': typ}, 'thread %d %s raised %s\n%s' % (k, op, typ, tb))
+  elif any(t.role == 'client' and t.state != kernel.DONE for t in sim.threads):
+    st = [t for t in sim.threads if t.role == 'client' and t.state != kernel.DONE]
+    res.violate('post-blocked', {'op': 'concurrent', 'target': 'concurrent'}, 'a posting/clearing thread is parked for ever at %s' % st[0].desc)
+  elif over:
+    res.violate('over-capacity', {'op': over[0][1]}, 'queue held %d events, capacity %d' % (over[0][2], sc['cap']))
+  elif q is not None:
+    n, tk = q.deque.real_len(), q.locking_queue._qsize()
+    if tk < n:
+      res.violate('token-lost', {'op': 'concurrent', 'consumer': bool(sc.get('consumer'))},
+                  'all threads are idle: %d event(s) pending but only %d wake-up token(s) (a consumer would sleep on a non-empty queue); threads: %s' % (n, tk, sc['threads']))
+  res.nontrivial.append(hash((sc['cap'], tuple(tuple(kernel._stable(o) for o in t) for t in sc['threads']), sim.switch_signature())))
+  sim.probe('clear_racing_posts')
+  if res.outcome == 'violation' or sched.get('seed', 0) % 499 == 0:
+    res.sample = {'target': 'concurrent', 'capacity': sc['cap'], 'threads': sc['threads'], 'consumer': sc.get('consumer'),
+                  'pending_at_idle': q.deque.real_len() if q is not None else None, 'tokens_at_idle': q.locking_queue._qsize() if q is not None else None}
+  common.finish(sim, res)
+  return res
+
+
 def execute(sc, sched):
+  if sc.get('target') == 'concurrent':
+    return execute_concurrent(sc, sched)
   res = RunResult()
   sim = common.new_sim(sc, sched, max_steps=100000)
   seams.set_queue_size(sc['cap'])
